@@ -9,7 +9,37 @@ import (
 	"verif.local/vsync/kern"
 )
 
+// SM64 is a splitmix64 generator used for decisions that are drawn on task
+// goroutines (map order, select order): it must be invisible to the race
+// detector, which math/rand's instrumented state is not.
+type SM64 struct{ s uint64 }
+
+//go:norace
+func NewSM64(seed uint64) *SM64 { return &SM64{s: seed} }
+
+//go:norace
+func (r *SM64) Uint64() uint64 {
+	r.s += 0x9e3779b97f4a7c15
+	z := r.s
+	z = (z ^ (z >> 30)) * 0xbf58476d1ce4e5b9
+	z = (z ^ (z >> 27)) * 0x94d049bb133111eb
+	return z ^ (z >> 31)
+}
+
+//go:norace
+func (r *SM64) IntN(n int) int {
+	if n <= 1 {
+		return 0
+	}
+	return int(r.Uint64() % uint64(n))
+}
+
+//go:norace
+func (r *SM64) Float64() float64 { return float64(r.Uint64()>>11) / (1 << 53) }
+
 // NewRand returns the PRNG every choice of a run is derived from.
+//
+//go:norace
 func NewRand(seed uint64, stream uint64) *rand.Rand {
 	return rand.New(rand.NewPCG(seed, stream^0x9e3779b97f4a7c15))
 }
@@ -21,6 +51,7 @@ type Tape struct {
 	Segs [][]int32 `json:"segs"`
 }
 
+//go:norace
 func (t *Tape) Len() int {
 	n := 0
 	for _, s := range t.Segs {
@@ -29,6 +60,7 @@ func (t *Tape) Len() int {
 	return n
 }
 
+//go:norace
 func (t *Tape) NonZero() int {
 	n := 0
 	for _, s := range t.Segs {
@@ -41,6 +73,7 @@ func (t *Tape) NonZero() int {
 	return n
 }
 
+//go:norace
 func (t *Tape) Clone() *Tape {
 	c := &Tape{Segs: make([][]int32, len(t.Segs))}
 	for i, s := range t.Segs {
@@ -67,10 +100,15 @@ type Source struct {
 	Draws  int
 }
 
+//go:norace
 func NewSearch(s Strategy) *Source { return &Source{strat: s, rec: Tape{Segs: [][]int32{nil}}} }
-func NewReplay(t *Tape) *Source    { return &Source{replay: t, rec: Tape{Segs: [][]int32{nil}}} }
+
+//go:norace
+func NewReplay(t *Tape) *Source { return &Source{replay: t, rec: Tape{Segs: [][]int32{nil}}} }
 
 // Segment switches to decision segment i (monotonically increasing).
+//
+//go:norace
 func (s *Source) Segment(i int) {
 	for len(s.rec.Segs) <= i {
 		s.rec.Segs = append(s.rec.Segs, nil)
@@ -78,6 +116,7 @@ func (s *Source) Segment(i int) {
 	s.seg, s.pos = i, 0
 }
 
+//go:norace
 func (s *Source) next(n int, draw func() int) int {
 	s.Draws++
 	v := 0
@@ -97,15 +136,19 @@ func (s *Source) next(n int, draw func() int) int {
 	return v
 }
 
+//go:norace
 func (s *Source) Task(cands []*kern.Task) int {
 	return s.next(len(cands), func() int { return s.strat.Task(cands) })
 }
 
+//go:norace
 func (s *Source) N(kind string, n int) int {
 	return s.next(n, func() int { return s.strat.N(kind, n) })
 }
 
 // Recorded returns the decisions actually taken.
+//
+//go:norace
 func (s *Source) Recorded() *Tape { return s.rec.Clone() }
 
 // ---------------------------------------------------------------- strategies
@@ -113,11 +156,12 @@ func (s *Source) Recorded() *Tape { return s.rec.Clone() }
 // RandomWalk keeps running the same task with probability Stick, otherwise
 // picks uniformly; other decisions are uniform with probability Mix, else 0.
 type RandomWalk struct {
-	R     *rand.Rand
+	R     *SM64
 	Stick float64
 	Mix   float64
 }
 
+//go:norace
 func (w *RandomWalk) Task(cands []*kern.Task) int {
 	if w.R.Float64() < w.Stick {
 		return 0
@@ -125,6 +169,7 @@ func (w *RandomWalk) Task(cands []*kern.Task) int {
 	return w.R.IntN(len(cands))
 }
 
+//go:norace
 func (w *RandomWalk) N(kind string, n int) int {
 	if w.R.Float64() < w.Mix {
 		return w.R.IntN(n)
@@ -135,7 +180,7 @@ func (w *RandomWalk) N(kind string, n int) int {
 // PCT is the probabilistic concurrency testing scheduler: random task
 // priorities, D priority change points over an expected horizon of K steps.
 type PCT struct {
-	R      *rand.Rand
+	R      *SM64
 	D      int
 	K      int
 	Mix    float64
@@ -145,7 +190,8 @@ type PCT struct {
 	low    int
 }
 
-func NewPCT(r *rand.Rand, d, k int, mix float64) *PCT {
+//go:norace
+func NewPCT(r *SM64, d, k int, mix float64) *PCT {
 	p := &PCT{R: r, D: d, K: k, Mix: mix, change: map[int]bool{}, next: 1 << 20}
 	for i := 0; i < d; i++ {
 		p.change[1+r.IntN(k)] = true
@@ -153,6 +199,7 @@ func NewPCT(r *rand.Rand, d, k int, mix float64) *PCT {
 	return p
 }
 
+//go:norace
 func (p *PCT) Task(cands []*kern.Task) int {
 	p.step++
 	for _, t := range cands {
@@ -179,6 +226,7 @@ func (p *PCT) Task(cands []*kern.Task) int {
 	return best
 }
 
+//go:norace
 func (p *PCT) N(kind string, n int) int {
 	if p.R.Float64() < p.Mix {
 		return p.R.IntN(n)
